@@ -16,17 +16,19 @@ avars == <<dq, tokens, applied, popped, everFull>>
 AInit == dq = <<>> /\ tokens = 0 /\ applied = <<>> /\ popped = <<>> /\ everFull = FALSE
 
 Full(s)  == Len(s) >= Cap
-(* a post never blocks and keeps the NEW event (C16); a full queue gives up one older event *)
+(* a post never blocks and keeps the NEW event (C16); a full queue gives up ONE older event *)
+(* (which one is not prescribed) and keeps the others in their order, like a bounded deque  *)
+RemoveAt(s, i) == SubSeq(s, 1, i - 1) \o SubSeq(s, i + 1, Len(s))
 PostBackOK(id, ndq) ==
   /\ Len(ndq) >= 1 /\ ndq[Len(ndq)] = id /\ Len(ndq) <= Cap
-  /\ IF Full(dq) THEN Len(ndq) = Cap ELSE ndq = Append(dq, id)
+  /\ IF Full(dq) THEN \E i \in 1..Len(dq) : ndq = Append(RemoveAt(dq, i), id) ELSE ndq = Append(dq, id)
 PostBack(id, ndq) ==
   /\ PostBackOK(id, ndq)
   /\ dq' = ndq /\ applied' = Append(applied, <<"f", id>>) /\ everFull' = (everFull \/ Full(dq) \/ Full(ndq))
   /\ UNCHANGED <<tokens, popped>>
 PostFrontOK(id, ndq) ==
   /\ Len(ndq) >= 1 /\ ndq[1] = id /\ Len(ndq) <= Cap
-  /\ IF Full(dq) THEN Len(ndq) = Cap ELSE ndq = <<id>> \o dq
+  /\ IF Full(dq) THEN \E i \in 1..Len(dq) : ndq = <<id>> \o RemoveAt(dq, i) ELSE ndq = <<id>> \o dq
 PostFront(id, ndq) ==
   /\ PostFrontOK(id, ndq)
   /\ dq' = ndq /\ applied' = Append(applied, <<"l", id>>) /\ everFull' = (everFull \/ Full(dq) \/ Full(ndq))
